@@ -124,7 +124,9 @@ func runC04(c *core.Ctx) {
 		resp.InResponseTo = r.val
 		a := samlgen.DefaultAssertion()
 		a.Confirmations[0].InResponseTo = c1.val
-		if c2 != nil {
+		if c1.name == "no-confirmation" {
+			a.Confirmations = nil // a Subject with a NameID only: nothing at the confirmation level can refuse the response
+		} else if c2 != nil {
 			cc := a.Confirmations[0]
 			cc.InResponseTo = c2.val
 			a.Confirmations = append(a.Confirmations, cc)
@@ -138,8 +140,11 @@ func runC04(c *core.Ctx) {
 	c.Group("xml+form")
 	for _, set := range sets {
 		for _, r := range irts {
-			for _, c1 := range irts {
+			for _, c1 := range append(append([]irtVal{}, irts...), irtVal{"no-confirmation", nil}) {
 				for ci := -1; ci < len(irts); ci++ {
+					if c1.name == "no-confirmation" && ci >= 0 {
+						continue
+					}
 					var c2 *irtVal
 					c2n := "none"
 					if ci >= 0 {
@@ -165,11 +170,16 @@ func runC04(c *core.Ctx) {
 										t.Impl(1)
 										checkAPIContract(t, a, err)
 										confOK := inSet(c1.val, set.ids) && (c2 == nil || inSet(c2.val, set.ids))
+										if c1.name == "no-confirmation" {
+											confOK = true
+										}
 										respOK := inSet(r.val, set.ids)
 										v := core.DontCare
 										switch {
 										case val == "reject":
 											v = core.MustReject
+										case respOK && confOK && c1.name == "no-confirmation":
+											v = core.DontCare // an assertion without any SubjectConfirmation need not be accepted
 										case respOK && confOK:
 											v = core.MustAccept
 										case idpInit || val == "accept":
